@@ -4,6 +4,7 @@ package main
 // scoped term definitions.
 
 import (
+	"os"
 	"bufio"
 	"fmt"
 	"io"
@@ -39,6 +40,11 @@ type Solver struct {
 	timeout int // ms per query
 	dead    bool
 	errLine string
+	capture *strings.Builder // when set, commands of the current query are recorded
+	XDir    string           // directory for cross-check dumps ("" = off)
+	XEvery  int
+	xcount  int
+	xid     string
 }
 
 func NewSolver(kind SolverKind, timeoutMs int) (*Solver, error) {
@@ -86,6 +92,10 @@ func (s *Solver) Close() {
 func (s *Solver) send(line string) {
 	if s.log != nil {
 		fmt.Fprintln(s.log, line)
+	}
+	if s.capture != nil && !strings.HasPrefix(line, "(push") && !strings.HasPrefix(line, "(pop") && !strings.HasPrefix(line, "(get-value") {
+		s.capture.WriteString(line)
+		s.capture.WriteByte('\n')
 	}
 	io.WriteString(s.in, line)
 	io.WriteString(s.in, "\n")
@@ -328,6 +338,15 @@ func (s *Solver) getModel(vars []*Term) Model {
 // on the solver's assertion stack between calls) and returns values for wantVars on sat.
 func (s *Solver) Solve(conj []*Term, wantVars []*Term) (Verdict, Model) {
 	s.errLine = ""
+	dump := false
+	if s.XDir != "" && s.XEvery > 0 {
+		s.xcount++
+		if s.xcount%s.XEvery == 0 {
+			dump = true
+			s.capture = &strings.Builder{}
+		}
+	}
+	defer func() { s.capture = nil }()
 	s.Push()
 	for _, c := range conj {
 		s.define(c)
@@ -339,6 +358,13 @@ func (s *Solver) Solve(conj []*Term, wantVars []*Term) (Verdict, Model) {
 		s.Assert(c)
 	}
 	v := s.Check()
+	if dump && v != Unknown {
+		body := s.capture.String()
+		s.capture = nil
+		name := fmt.Sprintf("%s/q_%s_%06d_%s.smt2", s.XDir, s.xid, s.xcount, v)
+		os.WriteFile(name, []byte("(set-logic QF_BV)\n"+body), 0644)
+	}
+	s.capture = nil
 	var m Model
 	if v == Sat {
 		m = s.getModel(wantVars)
